@@ -92,10 +92,11 @@ Theorem C06_restarts_timestamps_keep sp utc t0 off rs1 rs2 :
 Proof. exact (timestamps_restarts_keep sp utc t0 off rs1 rs2). Qed.
 
 Require Import FL.Flw.TsdInv FL.Flw.TsdRun FL.Flw.TsdTheorems FL.Flw.TsParse FL.Flw.TsdRestartInv FL.Flw.TsdRestart.
-(* TimestampsDirect naming over sequences of runs (a run with append needs local time or a zero zone offset: with use_utc and another offset the
-   newest file is not found again - a counterexample in Flw/TsdRestart.v shows the reordering; and the probe name rXXXXX must not occur in the fixed part) *)
+(* TimestampsDirect naming over sequences of runs, local time or use_utc with any zone offset (for a run with append the probe
+   name rXXXXX must not occur in the fixed name part; the proof found that with use_utc and a zone offset <> 0 the newest file
+   was not found again and records were reordered - repaired in the code, see Flw/TsdRestart.v) *)
 Theorem C06_restarts_timestampsdirect sp utc t0 off rs :
-  Forall (run_ok_tsd sp utc off) rs ->
+  Forall (run_ok_tsd sp utc) rs ->
   let e := if utc then 0%Z else off in
   (0 <= t0 + e)%Z -> (t0 + elapsed (runs_ops_t rs) + e < sec_max)%Z -> (N.of_nat (length (runs_ops_t rs)) <= usize_max)%N ->
   let f := wfs (s_w (fst (run (sys0 t0 off) (runs_ops_t rs)))) in
@@ -108,7 +109,7 @@ Proof. exact (timestampsdirect_restarts sp utc t0 off rs). Qed.
 
 (* ... only the last file of the previous state can be continued (append); without append no earlier file is touched *)
 Theorem C06_restarts_timestampsdirect_keep sp utc t0 off rs1 rs2 :
-  Forall (run_ok_tsd sp utc off) (rs1 ++ rs2) ->
+  Forall (run_ok_tsd sp utc) (rs1 ++ rs2) ->
   let e := if utc then 0%Z else off in
   (0 <= t0 + e)%Z -> (t0 + elapsed (runs_ops_t (rs1 ++ rs2)) + e < sec_max)%Z ->
   (N.of_nat (length (runs_ops_t (rs1 ++ rs2))) <= usize_max)%N ->
